@@ -141,6 +141,14 @@ pub async fn run_scripted(case: &Value, keep: bool) -> RunOut {
                     .await;
                 pre_log.push(json!({"checkpoint": r.map(|x| x.status().as_u16()).unwrap_or(0)}));
             }
+            "rotate" => {
+                let r = client
+                    .post(format!("{base}/threads/{thread_id}/provider-cursor-rotate"))
+                    .json(&json!({"reason": "verif", "actor_id": "user", "origin": "verif"}))
+                    .send()
+                    .await;
+                pre_log.push(json!({"rotate": r.map(|x| x.status().as_u16()).unwrap_or(0)}));
+            }
             "delete_artifacts" => {
                 let dir = ws.join(".rip/artifacts/blobs");
                 for e in std::fs::read_dir(&dir).into_iter().flatten().flatten() {
